@@ -548,12 +548,12 @@ theorem cleanPayee_wf (t : Transaction) (h : cleanPayee t.code.isSome t.payee = 
       simp only [Bool.false_or] at h3 ⊢
       simp only [hc, h3, Bool.and_self]
 
-theorem cleanCode_wf {c : String} (h : cleanCode c = true) : (c.toList.all (· != ')')) = true := by
+theorem cleanCode_wf {c : String} (h : cleanCode c = true) : wfCode c.toList = true := by
   apply List.all_eq_true.mpr
   intro x hx
   have := List.all_eq_true.mp h x hx
-  simp only [Bool.not_eq_true', Bool.or_eq_false_iff, beq_eq_false_iff_ne] at this
-  simp [this.1]
+  simp only [isLineBreak, Bool.not_eq_true', Bool.or_eq_false_iff, beq_eq_false_iff_ne] at this
+  simp [Parse.isParenStrStop, this.1, this.2.1, this.2.2]
 
 /-! ## a readable tree is read back -/
 
